@@ -16,6 +16,12 @@ theorem Rep.regs_append (a b : Rep) : (a.append b).regs = a.regs ++ b.regs := by
   | reg t r ih => simp [Rep.append, Rep.regs, ih]
   | kid k r _ ih => simp [Rep.append, Rep.regs, ih]
 
+theorem Rep.append_done (a : Rep) : a.append .done = a := by
+  induction a with
+  | done => rfl
+  | reg t r ih => simp [Rep.append, ih]
+  | kid k r _ ih => simp [Rep.append, ih]
+
 theorem extIds_append (a b : List Tgt) : extIds (a ++ b) = extIds a ++ extIds b := by
   induction a with
   | nil => simp [extIds]
@@ -60,30 +66,26 @@ theorem E_seq_map {α} (f : α → Rep) (l : List α) :
 /-! ### the rows of `codeTable` -/
 
 theorem E_visitPrimary_own (i : Nat) (b : Bool) : E (visitPrimary codeTable (.own i) b) = [] := by
-  cases b <;> simp [visitPrimary, row, codeTable, Rep.seq, Rep.append, E, Rep.allRegs, extIds]
+  cases b <;> simp [visitPrimary, act, row, codeTable, Rep.seq, Rep.append, E, Rep.allRegs, extIds]
 
 theorem E_visitLimRef (o : Obj) : E (visitLimRef codeTable o) = o.trk := by
   cases h : o.kind.derivesTrackable <;>
-    simp [visitLimRef, visitPrimary, row, codeTable, Rep.seq, Rep.append, E, Rep.allRegs, extIds,
+    simp [visitLimRef, visitPrimary, act, row, codeTable, Rep.seq, Rep.append, E, Rep.allRegs, extIds,
       Obj.trk, h]
 
-theorem E_visitBound (b : BArg) : E (visitBound codeTable b) = b.refs := by
-  cases b with
-  | val =>
-    simp [visitBound, row, codeTable, Rep.seq, BArg.refs]
-    rw [E_append, E_visitPrimary_own]; rfl
-  | ref o =>
-    simp [visitBound, row, codeTable, Rep.seq, BArg.refs]
-    rw [E_append, E_visitLimRef]; simp [E_done]
-  | cref o =>
-    simp [visitBound, row, codeTable, Rep.seq, BArg.refs]
-    rw [E_append, E_visitLimRef]; simp [E_done]
-  | copy o =>
-    simp [visitBound, row, codeTable, Rep.seq, BArg.refs]
-    rw [E_append, E_visitPrimary_own]; rfl
+/-- the `bound_argument` row: one member, `visit` -/
+theorem E_bound_row (f : Mem → Rep) : E (row codeTable .bound_argument f) = E (f .visit) := by
+  simp [row, codeTable, Rep.seq]
+  rw [E_append]; simp [E_done]
 
-theorem E_visitTuple (bs : List BArg) : E (visitTuple codeTable bs) = bs.flatMap BArg.refs := by
-  simp [visitTuple, E_seq_map, E_visitBound]
+theorem visitObjs_boundLeafTable (ts : List Obj) : visitObjs boundLeafTable ts = visitObjs codeTable ts := by
+  have : visitLimRef boundLeafTable = visitLimRef codeTable := funext fun _ => rfl
+  simp [visitObjs, this]
+
+theorem refsOf_eq_flatMap (bs : List BArg) : refsOf bs = bs.flatMap BArg.refs := by
+  induction bs with
+  | nil => simp [refsOf]
+  | cons b bs ih => simp [refsOf, ih]
 
 theorem E_visitObjs (ts : List Obj) : E (visitObjs codeTable ts) = ts.flatMap Obj.trk := by
   simp [visitObjs, E_seq_map, E_visitLimRef]
@@ -125,18 +127,10 @@ theorem noKids_seq_map {α} (f : α → Rep) (l : List α) (h : ∀ x ∈ l, (f 
     rw [this, Rep.noKids_append, h x (by simp), ih (fun y hy => h y (by simp [hy]))]; rfl
 
 theorem noKids_visitPrimary (t : Tgt) (b : Bool) : (visitPrimary codeTable t b).noKids = true := by
-  cases b <;> simp [visitPrimary, row, codeTable, Rep.seq, Rep.append, Rep.noKids]
+  cases b <;> simp [visitPrimary, act, row, codeTable, Rep.seq, Rep.append, Rep.noKids]
 
 theorem noKids_visitLimRef (o : Obj) : (visitLimRef codeTable o).noKids = true := by
   simp [visitLimRef, row, codeTable, Rep.seq, Rep.noKids_append, noKids_visitPrimary, Rep.noKids]
-
-theorem noKids_visitBound (b : BArg) : (visitBound codeTable b).noKids = true := by
-  cases b <;>
-    simp [visitBound, row, codeTable, Rep.seq, Rep.noKids_append, noKids_visitPrimary,
-      noKids_visitLimRef, Rep.noKids]
-
-theorem noKids_visitTuple (bs : List BArg) : (visitTuple codeTable bs).noKids = true :=
-  noKids_seq_map _ _ (fun b _ => noKids_visitBound b)
 
 theorem noKids_visitObjs (ts : List Obj) : (visitObjs codeTable ts).noKids = true :=
   noKids_seq_map _ _ (fun o _ => noKids_visitLimRef o)
@@ -145,51 +139,73 @@ theorem noKids_stored (b : Bool) (r : Rep) (h : r.noKids = true) :
     (stored codeTable b r).noKids = true := by
   cases b <;> simp [stored, row, codeTable, Rep.seq, Rep.noKids_append, h, Rep.noKids]
 
+mutual
 theorem noKids_scan (e : FExpr) (h : slotFree e = true) : (scan codeTable e).noKids = true := by
-  induction e with
-  | leaf => simp [scan, noKids_visitPrimary]
-  | memFun o => simp [scan, row, codeTable, Rep.seq, Rep.noKids_append, noKids_visitLimRef, Rep.noKids]
-  | makeSlot o => simp [scan, row, codeTable, Rep.seq, Rep.noKids_append, noKids_visitLimRef, Rep.noKids]
-  | signalConnect o =>
+  match e with
+  | .leaf => simp [scan, noKids_visitPrimary]
+  | .memFun o => simp [scan, row, codeTable, Rep.seq, Rep.noKids_append, noKids_visitLimRef, Rep.noKids]
+  | .makeSlot o => simp [scan, row, codeTable, Rep.seq, Rep.noKids_append, noKids_visitLimRef, Rep.noKids]
+  | .signalConnect o =>
     simp [scan, row, codeTable, Rep.seq, Rep.noKids_append, noKids_visitLimRef, Rep.noKids]
-  | bind pos f bs ih =>
-    have hf := ih (by simpa [slotFree] using h)
+  | .bind pos f bs =>
+    simp [slotFree] at h
+    have hf := noKids_scan f h.1
+    have hb := noKids_visitTuple bs h.2
     cases pos <;>
-      simp [scan, row, codeTable, Rep.seq, Rep.noKids_append, noKids_stored, hf, noKids_visitTuple,
-        Rep.noKids]
-  | bindReturn f b ih =>
-    have hf := ih (by simpa [slotFree] using h)
-    simp [scan, row, codeTable, Rep.seq, Rep.noKids_append, noKids_stored, hf, noKids_visitBound,
-      Rep.noKids]
-  | hide pos f ih =>
-    have hf := ih (by simpa [slotFree] using h)
-    simp [scan, row, codeTable, Rep.seq, Rep.noKids_append, noKids_stored, hf, Rep.noKids]
-  | hideReturn f ih =>
-    have hf := ih (by simpa [slotFree] using h)
-    simp [scan, row, codeTable, Rep.seq, Rep.noKids_append, noKids_stored, hf, Rep.noKids]
-  | retype f ih =>
-    have hf := ih (by simpa [slotFree] using h)
-    simp [scan, row, codeTable, Rep.seq, Rep.noKids_append, noKids_stored, hf, Rep.noKids]
-  | retypeReturn f ih =>
-    have hf := ih (by simpa [slotFree] using h)
-    simp [scan, row, codeTable, Rep.seq, Rep.noKids_append, noKids_stored, hf, Rep.noKids]
-  | compose1 s g ihs ihg =>
+      simp [scan, row, codeTable, Rep.seq, Rep.noKids_append, noKids_stored, hf, hb, Rep.noKids]
+  | .bindReturn f b =>
     simp [slotFree] at h
-    simp [scan, row, codeTable, Rep.seq, Rep.noKids_append, noKids_stored, ihs h.1, ihg h.2,
-      Rep.noKids]
-  | compose2 s g1 g2 ihs ih1 ih2 =>
+    have hf := noKids_scan f h.1
+    have hb := noKids_visitBound b h.2
+    simp [scan, row, codeTable, Rep.seq, Rep.noKids_append, noKids_stored, hf, hb, Rep.noKids]
+  | .hide pos f =>
+    have hf := noKids_scan f (by simpa [slotFree] using h)
+    simp [scan, row, codeTable, Rep.seq, Rep.noKids_append, noKids_stored, hf, Rep.noKids]
+  | .hideReturn f =>
+    have hf := noKids_scan f (by simpa [slotFree] using h)
+    simp [scan, row, codeTable, Rep.seq, Rep.noKids_append, noKids_stored, hf, Rep.noKids]
+  | .retype f =>
+    have hf := noKids_scan f (by simpa [slotFree] using h)
+    simp [scan, row, codeTable, Rep.seq, Rep.noKids_append, noKids_stored, hf, Rep.noKids]
+  | .retypeReturn f =>
+    have hf := noKids_scan f (by simpa [slotFree] using h)
+    simp [scan, row, codeTable, Rep.seq, Rep.noKids_append, noKids_stored, hf, Rep.noKids]
+  | .compose1 s g =>
     simp [slotFree] at h
-    simp [scan, row, codeTable, Rep.seq, Rep.noKids_append, noKids_stored, ihs h.1.1, ih1 h.1.2,
-      ih2 h.2, Rep.noKids]
-  | exceptionCatch f c ihf ihc =>
+    simp [scan, row, codeTable, Rep.seq, Rep.noKids_append, noKids_stored, noKids_scan s h.1,
+      noKids_scan g h.2, Rep.noKids]
+  | .compose2 s g1 g2 =>
     simp [slotFree] at h
-    simp [scan, row, codeTable, Rep.seq, Rep.noKids_append, noKids_stored, ihf h.1, ihc h.2,
-      Rep.noKids]
-  | trackObj f ts ih =>
-    have hf := ih (by simpa [slotFree] using h)
+    simp [scan, row, codeTable, Rep.seq, Rep.noKids_append, noKids_stored, noKids_scan s h.1.1,
+      noKids_scan g1 h.1.2, noKids_scan g2 h.2, Rep.noKids]
+  | .exceptionCatch f c =>
+    simp [slotFree] at h
+    simp [scan, row, codeTable, Rep.seq, Rep.noKids_append, noKids_stored, noKids_scan f h.1,
+      noKids_scan c h.2, Rep.noKids]
+  | .trackObj f ts =>
+    have hf := noKids_scan f (by simpa [slotFree] using h)
     simp [scan, row, codeTable, Rep.seq, Rep.noKids_append, noKids_stored, hf, noKids_visitObjs,
       Rep.noKids]
-  | slot f _ => simp [slotFree] at h
+  | .slot f => simp [slotFree] at h
+
+theorem noKids_visitBound (b : BArg) (h : b.slotFree = true) :
+    (visitBound codeTable b).noKids = true := by
+  match b with
+  | .val | .ref o | .cref o | .copy o =>
+    simp [visitBound, row, codeTable, Rep.seq, Rep.noKids_append, noKids_visitPrimary,
+      noKids_visitLimRef, Rep.noKids]
+  | .fn e =>
+    have he := noKids_scan e (by simpa [BArg.slotFree] using h)
+    simp [visitBound, row, codeTable, Rep.seq, Rep.noKids_append, he, Rep.noKids]
+
+theorem noKids_visitTuple (bs : List BArg) (h : slotFreeArgs bs = true) :
+    (visitTuple codeTable bs).noKids = true := by
+  match bs with
+  | [] => simp [visitTuple, Rep.noKids]
+  | b :: bs =>
+    simp [slotFreeArgs] at h
+    simp [visitTuple, Rep.noKids_append, noKids_visitBound b h.1, noKids_visitTuple bs h.2]
+end
 
 /-! ### the callback list -/
 
